@@ -752,4 +752,9 @@ def rule_r10(ctx, cg: CallGraph) -> RuleResult:
 
 def run(ctx) -> list:
     cg = CallGraph(ctx.index)
-    return [rule_r1(ctx, cg), rule_r2(ctx), rule_r3(ctx), rule_r4(ctx), rule_r5(ctx), rule_r6(ctx), rule_r7(ctx), rule_r8(ctx), rule_r9(ctx), rule_r10(ctx, cg)]
+    results = [rule_r1(ctx, cg), rule_r2(ctx), rule_r3(ctx), rule_r4(ctx), rule_r5(ctx), rule_r6(ctx), rule_r7(ctx), rule_r8(ctx), rule_r9(ctx), rule_r10(ctx, cg)]
+    if ctx.thorough:
+        from ..core.cgcheck import crosscheck
+
+        results.append(crosscheck(ctx, cg, "C09.CG"))
+    return results
